@@ -124,6 +124,12 @@ impl GenericsAnalyzer {
 
     pub fn analyze_fn_deps(&mut self, input_sig: InputSig<'_>, opts: &Opts) -> syn::Result<FnDeps> {
         if opts.no_deps_value() {
+            if let Some(first_input @ syn::FnArg::Receiver(_)) = input_sig.inputs.first() {
+                return Err(syn::Error::new(
+                    first_input.span(),
+                    "Function cannot have a self receiver",
+                ));
+            }
             return self.deps_with_generics(FnDeps::NoDeps, &input_sig.generics);
         }
 
